@@ -668,6 +668,41 @@ extern int _vnacal_new_solve_trl(vnacal_new_solve_state_t *vnssp,
 	const vnacal_new_trl_indices_t *vntip,
 	double complex *x_vector, int x_length);
 
+#ifdef LIBVNA_VERIF
+/*
+ * Verification hook, compiled only with -DLIBVNA_VERIF.  When the pointer
+ * is not NULL, _vnacal_new_solve_auto calls it at the end of every
+ * Levenberg-Marquardt iteration (vle_exit == 0) and once when it returns
+ * (vle_exit == 1).  The vectors are only valid during the call.
+ */
+#define VNACAL_VERIF_LM_OK		0	/* converged */
+#define VNACAL_VERIF_LM_LIMIT		1	/* iteration limit reached */
+#define VNACAL_VERIF_LM_SINGULAR	2	/* singular system */
+#define VNACAL_VERIF_LM_ERROR		3	/* any other failure */
+
+typedef struct vnacal_verif_lm_event {
+    int vle_exit;			/* 0: end of iteration, 1: exit */
+    int vle_findex;			/* frequency index */
+    int vle_iteration;			/* iteration number (0-based); at
+					   exit: iterations completed */
+    int vle_iteration_limit;		/* configured limit */
+    int vle_better;			/* this iteration was accepted */
+    int vle_converged;			/* convergence test passed */
+    int vle_outcome;			/* at exit: VNACAL_VERIF_LM_* */
+    double vle_multiplier;		/* Marquardt multiplier */
+    double vle_sum_k_squared;		/* current sum of squares */
+    double vle_best_sum_k_squared;	/* best sum of squares */
+    int vle_p_length;			/* number of unknown parameters */
+    int vle_x_length;			/* number of error terms solved */
+    const double complex *vle_p_vector;	     /* next trial point */
+    const double complex *vle_best_p_vector; /* best point */
+    const double complex *vle_d_vector;	     /* correction just applied */
+    const double complex *vle_x_vector;	     /* error terms, this iteration */
+} vnacal_verif_lm_event_t;
+
+extern void (*_vnacal_verif_lm_hook)(const vnacal_verif_lm_event_t *event);
+#endif /* LIBVNA_VERIF */
+
 
 #ifdef __cplusplus
 } /* extern "C" */
